@@ -352,6 +352,19 @@ def check_case(ctx, case, upath, rng):
                 cur, _ = model.parse(mt, bytes(shadow), 0, cfg)
             except (model.ModelDecodeError, model.ModelEOF):
                 break
+            if fj is None and mt["k"] == "int" and U.size is not None and rng.random() < 0.2:
+                # an assignment the member type refuses (value out of range) changes nothing: every member still is
+                # the view of the unchanged bytes
+                bad = 1 << (8 * model.size_of(mt, cfg))
+                try:
+                    setattr(u, lf._name, bad)
+                    viol("assign", "out-of-range-assignment-to-a-union-member-accepted", member=mf["name"], value=bad)
+                    break
+                except Exception:  # noqa: BLE001
+                    ctx.event("refused_assignments")
+                    ctx.cell("route:refused-assignment")
+                if not judge_state(ctx, case, cfgd, cfg, unode, U, u, shadow, viol, f"after-refused-assignment:{mf['name']}"):
+                    break
             try:
                 if fj is None:
                     newv = model.random_value(mt, rng, cfg)
@@ -548,12 +561,38 @@ def witnesses(ctx):
     ctx.cell("pinned-witnesses")
 
 
+def held_reference(ctx):
+    """Pinned witness of the open finding K10: several writes through one held reference to a nested structure."""
+    for endian in "<>":
+        text = "struct s { uint8 x; uint8 y; };\nunion u { s a; uint16 b; };"
+        ctx.evaluation(("held-reference", endian))
+        ctx.cell("held-reference")
+        try:
+            cs = lib.load(text, endian, False, False)
+            o = cs.u()
+            p = o.a
+            p.x = 1
+            p.y = 2
+            got = (o.dumps(), int(o.b), int(o.a.x), int(o.a.y))
+        except Exception as e:  # noqa: BLE001
+            ctx.violation("held-reference", f"write-through-held-reference-raises:{type(e).__name__}",
+                          {"text": text, "error": lib.exc_sig(e), "workload": "held-reference"})
+            continue
+        want = (b"\x01\x02", 0x0201 if endian == "<" else 0x0102, 1, 2)
+        if got != want:
+            ctx.violation("held-reference", "K10:second-write-through-a-held-nested-structure-reference-is-lost",
+                          {"text": text, "endian": endian, "got": repr(got), "want": repr(want), "workload": "held-reference"})
+        else:
+            ctx.event("held_reference_writes_kept")
+
+
 def run(ctx):
     mon = UnionMonitor(ctx)
     mon.install()
     try:
         if ctx.shard == 0:
             witnesses(ctx)
+            held_reference(ctx)
         if ctx.shard % 4 == 1:
             offset_unions(ctx, 12 if not ctx.thorough else 150)
         for i in range(N_CASES[ctx.tier]):
@@ -569,6 +608,9 @@ def run(ctx):
 
 
 def replay(ctx, detail):
+    if detail.get("workload") == "held-reference":
+        held_reference(ctx)
+        return
     import random
 
     if "ast" not in detail:
